@@ -2226,7 +2226,9 @@ func normalizeFunctionBlock(node *ast.Block) []ast.Node {
 	// 3. An implicit return will return either the value of the
 	//    last expression, or nil if the last statement is not an expression.
 	returnNil := ast.NewReturn(token.Token{}, ast.NewNil(token.Token{}))
-	statements := node.Statements()
+	// The statements are the block's own slice. What is changed below is a
+	// copy: the syntax tree is the same after compilation as before
+	statements := append([]ast.Node(nil), node.Statements()...)
 	count := len(statements)
 	if count == 0 {
 		return []ast.Node{returnNil}
